@@ -17,6 +17,8 @@ use super::code::*;
 //@include prelude/comparison_spec.rs
 //@include prelude/lemmas_c10.rs
 //@include prelude/lemmas_c10_unpaired.rs
+//@include prelude/lemmas_c16.rs
+//@include prelude/lemmas_c16_unpaired.rs
 } // mod spec
 
 pub mod code {
